@@ -46,6 +46,12 @@ type Step struct {
 	KeyFn int       `json:"keyfn"`
 	Bad   int       `json:"bad,omitempty"`  // error injection flavour, 0 = none
 	Pref  int       `json:"pref,omitempty"` // operand preference: 1 views, 2 aliased, 3 shared storage
+	// Direct: operands name slots directly (gA = slot A mod 10) when that slot
+	// is live and of a fitting type; lets one step aim at the value a previous
+	// step has just produced.
+	Direct bool `json:"direct,omitempty"`
+	// Again: take the operands the step two positions earlier resolved to.
+	Again bool `json:"again,omitempty"`
 }
 
 type Case struct {
@@ -53,7 +59,7 @@ type Case struct {
 }
 
 var strPool = []string{"x", "yy", "a", "b", "zed"}
-var keyPool = []string{"a", "b", "c", "k1", "B"}
+var keyPool = []string{"a", "bb", "ccc", "k1xx", "Bzzzz"}
 var typeNames = []string{"list", "vector", "bytes"}
 
 func mod(x, n int) int {
@@ -129,6 +135,14 @@ func (h *heap) pick(k kind, raw int, loose bool) int {
 	}
 	if len(all) == 0 {
 		return -1
+	}
+	if slot, ok := h.again[raw]; ok && !loose && h.g[slot] != nil && k(h.g[slot]) {
+		return slot
+	}
+	if h.direct && !loose {
+		if o := h.g[mod(raw, NSlots)]; o != nil && k(o) {
+			return mod(raw, NSlots)
+		}
 	}
 	if !loose && len(best) > 0 {
 		return best[mod(raw, len(best))]
@@ -207,8 +221,11 @@ var predFns = []string{
 }
 var keyFns = []string{
 	"",
-	"(lambda (x) (if (int? x) x 0))",
-	"(lambda (x) (if (int? x) (- 0 x) 0))",
+	// total: ints by value, symbols and strings by the length of their text,
+	// containers by their length -- so sorting a key list, a list of strings
+	// or a list of containers really permutes it
+	"(lambda (x) (if (int? x) x (if (symbol? x) (length (to-string x)) (length x))))",
+	"(lambda (x) (- 0 (if (int? x) x (if (symbol? x) (length (to-string x)) (length x)))))",
 }
 var predNames = []string{"<", ">"}
 
@@ -296,7 +313,8 @@ func resolve(st Step, h *heap) *cop {
 		}
 	}
 	h.pref = h.prefKind(st.Pref)
-	defer func() { h.pref = nil }()
+	h.direct = st.Direct
+	defer func() { h.pref, h.direct = nil, false }()
 	live := h.pick(kAny, 0, true) >= 0
 	if !live && !creates[c.op] && !(c.op == "to-bytes") {
 		c.op = "list"
@@ -713,12 +731,27 @@ func checkHistory(cs Case, ctx *vcommon.Ctx) *vcommon.Failure {
 		return vcommon.Failf(key, "%s\nhistory:\n%s", msg, script(srcs))
 	}
 
+	cops := make([]*cop, len(cs.Steps))
 	for si, st := range cs.Steps {
 		if si >= 60 {
 			break
 		}
 		h0 := hyps[0]
+		h0.again = nil
+		if st.Again && si >= 2 && cops[si-2] != nil {
+			// same operands as the step two back (derive, mutate, derive AGAIN)
+			p := cops[si-2]
+			h0.again = map[int]int{}
+			if p.b >= 0 {
+				h0.again[st.B] = p.b
+			}
+			if p.a >= 0 {
+				h0.again[st.A] = p.a
+			}
+		}
 		c := resolve(st, h0)
+		h0.again = nil
+		cops[si] = c
 		srcs = append(srcs, c.src)
 		classes["op/"+c.op] = true
 
@@ -804,6 +837,7 @@ func checkHistory(cs Case, ctx *vcommon.Ctx) *vcommon.Failure {
 		if selfRef {
 			classes["skipped/would-create-self-containing-value"] = true
 			srcs[len(srcs)-1] = "; skipped (self-containing value): " + c.src
+			cops[si] = nil
 			continue
 		}
 
